@@ -20,8 +20,7 @@ THEOREMS = [
     "Yaw.C01.emit_guard", "Yaw.C01.diag_value", "Yaw.C01.pruned_sep", "Yaw.C01.linked_refl_symm",
     "Yaw.C01.link_tie_witness", "Yaw.C01.count_pairs_eq_spec_partial", "Yaw.C01.glue_pinned",
     "Yaw.PC.pruned_pairs_empty", "Yaw.PC.pruned_pairs_empty_notie", "Yaw.PC.cntLe_split", "Yaw.PC.cnt_split",
-    "Yaw.PC.argminAbs_mem", "Yaw.PC.columns_perm",
-]
+    "Yaw.PC.argminAbs_mem", "Yaw.PC.columns_perm", "Yaw.C01.tree_pair_count_exact_merged"]
 KERNELS = ["k_paircount"]
 RULE = ("catalog sets sharing patch centres (1..6 patches; base position on the equator, across RA=0, on either pole; "
         "compact / wide / mixed patch extents; data vs randoms of different size and extent; integer weights or none; "
@@ -34,16 +33,18 @@ RULE = ("catalog sets sharing patch centres (1..6 patches; base position on the 
         "largest scale; distinct by (seeded case description)")
 
 
-def make_config(rng, cosmo_name=None):
-    import astropy.cosmology
+def make_config(rng, cosmo_name=None, ci=None):
+    import cosmos
     from yaw import Configuration
     B = rng.choice([1, 2, 3])
     zlo = rng.choice([0.005, 0.01, 0.07, 0.3, 1.0, 1.6])
     widths = [rng.choice([0.02, 0.1, 0.5, 1.5]) for _ in range(B)]
     edges = np.concatenate([[zlo], zlo + np.cumsum(widths)])
     unit = rng.choice(["rad", "deg", "arcmin", "kpc", "Mpc", "Mpc/h", "kpc/h", "Mpc", "kpc"])
-    cosmo_name = cosmo_name or rng.choice(["Planck15", "Planck15", "WMAP9"])
-    cosmology = getattr(astropy.cosmology, cosmo_name)
+    # named flat models, curved models and a user-defined cosmology (objects) by turns: D_A differs from D_C / (1 + z)
+    cosmo_name = cosmo_name or (rng.choice(["Planck15", "Planck15", "WMAP9"]) if ci is None
+                                else cosmos.NAMES[(ci // 2) % len(cosmos.NAMES)])
+    cosmo_arg, cosmology = cosmos.get(cosmo_name)
     S = rng.choice([1, 1, 2, 3])
     zref = float((edges[0] + edges[1]) / 2)
     scales = []
@@ -61,7 +62,7 @@ def make_config(rng, cosmo_name=None):
     closed = rng.choice(["left", "right"])
     kw = dict(rmin=rmin if len(rmin) > 1 else rmin[0], rmax=rmax if len(rmax) > 1 else rmax[0], unit=unit,
               rweight=rweight, resolution=resolution, edges=edges.tolist(), closed=closed, cosmology=cosmo_name)
-    return Configuration.create(**kw), kw, cosmology
+    return Configuration.create(**dict(kw, cosmology=cosmo_arg)), kw, cosmology
 
 
 def make_stress_config(rng, which):
@@ -222,7 +223,7 @@ def run_case(ck, rng, root, ci, tier):
         config, cfgkw, cosmology = make_stress_config(rng, stress)
         field = G.make_field(rng, num_patches=rng.choice([4, 5, 6]), spread=0.3)
     else:
-        config, cfgkw, cosmology = make_config(rng)
+        config, cfgkw, cosmology = make_config(rng, ci=ci)
         field = G.make_field(rng)
     ck.count(f"stratum={stress or 'general'}")
     N = field["N"]
